@@ -5,7 +5,7 @@ the scale-info that was just rebuilt, with the feature set asked for."""
 import json, os, subprocess, concurrent.futures as cf
 import vlib
 
-WANT = {"vh": "vh", "scale_info": "scale_info", "parity_scale_codec": "scale", "serde_json": "serde_json", "bitvec": "bitvec", "serde": "serde"}
+WANT = {"rand": "rand", "vh": "vh", "scale_info": "scale_info", "parity_scale_codec": "scale", "serde_json": "serde_json", "bitvec": "bitvec", "serde": "serde"}
 
 
 class Deps:
